@@ -15,6 +15,18 @@ fn main() -> ExitCode {
     let seed: u64 = args[3].parse().unwrap_or(0);
     let out = PathBuf::from(&args[4]);
     let only = args.get(5).map(String::as_str);
+    if prop == "C10DUMP" {
+        // canonical dump of the seeded workload, compared across feature builds by ./check C10
+        let (text, notes) = rosu_verif::c10::dump(tier, seed);
+        if std::fs::create_dir_all(&out).is_err()
+            || std::fs::write(out.join("dump.txt"), text).is_err()
+            || std::fs::write(out.join("dump-notes.txt"), notes).is_err()
+        {
+            eprintln!("cannot write dump");
+            return ExitCode::from(2);
+        }
+        return ExitCode::SUCCESS;
+    }
     let run: Run = match prop {
         "C01" => rosu_verif::c01::run(tier, seed, only),
         "C02" => rosu_verif::c02::run(tier, seed, only),
@@ -23,8 +35,11 @@ fn main() -> ExitCode {
         "C06" => rosu_verif::c06::run(tier, seed, only),
         "C07" => rosu_verif::c07::run(tier, seed, only),
         "C08" => rosu_verif::c08::run(tier, seed, only),
+        "C10" => rosu_verif::c10::run(tier, seed, only),
+        "C11" => rosu_verif::c11::run(tier, seed, only),
         "C14" => rosu_verif::c14::run(tier, seed, only),
         "C15" => rosu_verif::c15::run(tier, seed, only),
+        "C16" => rosu_verif::c16::run(tier, seed, only),
         "C17" => rosu_verif::c17::run(tier, seed, only),
         "C18" => rosu_verif::c18::run(tier, seed, only),
         "C19" => rosu_verif::c19::run(tier, seed, only),
